@@ -165,11 +165,10 @@ def _dt(rng):
         d.year, d.month, d.day, d.hour, d.minute, d.second, d.microsecond)
 
 def sei_valid(rng):
-    # `microseconds` is written by no statement of the class after __init__; it is left at its default here
     return {"payloadtype": _opt(rng, 8), "payloadsize": _opt(rng, 8), "unregdata": rng.choice(["True", "False"]),
             "status": _opt(rng, 8),
             "seconds": "None" if rng.random() < 0.3 else F64(rng.randrange(0, 2**40) / 1e6),
-            "nanoseconds": _opt(rng, 32),
+            "microseconds": _opt(rng, 20), "nanoseconds": _opt(rng, 32),
             "time": "None" if rng.random() < 0.3 else _dt(rng), "stanag": rng.choice(["True", "False"])}
 
 def sei_obj(rng):
